@@ -624,7 +624,7 @@ func main() {
 		rec(nil)
 		return out
 	}
-	maxLen := vlib.Pick(c, 3, 4)
+	maxLen := vlib.Pick(c, 3, 5)
 	for _, s := range seqs(menu(T), maxLen) {
 		scens = append(scens, scen{Kind: "tbuf", Batches: [][]int{s}, Bound: -1})
 	}
@@ -719,6 +719,15 @@ func main() {
 			scens = append(scens, scen{Kind: "tbuf-collector", Batches: [][]int{a, b}, Bound: bound})
 		}
 	}
+	if c.Thorough() {
+		// four producers, at most 2 preemptions: both buffers and the collector
+		for _, a := range [][]int{{T}, {T - 1, 2}} {
+			for _, d := range [][]int{{1}, {T + 1}} {
+				scens = append(scens, scen{Kind: "tbuf", Batches: [][]int{a, {T}, d, {2}}, Bound: 2}, scen{Kind: "tbuf-collector", Batches: [][]int{a, {T}, d, {2}}, Bound: 2},
+					scen{Kind: "lbuf", Batches: [][]int{{L}, a[:1], d, {2}}, Bound: 2})
+			}
+		}
+	}
 	sort.SliceStable(scens, func(i, k int) bool { return len(scens[i].Batches) < len(scens[k].Batches) })
 	m := c.RunSharded(len(scens), func(i int, j *vlib.Job) {
 		runScenario(c, scens[i], j)
@@ -758,7 +767,7 @@ func main() {
 		Rule:       "states = complete executions of the real buffer/collector/writer code under the controlled scheduler (one per explored schedule); transitions = scheduler steps (visible sync operations); non-trivial = distinct operation traces (schedules that differ in the order of visible operations)",
 		Samples:    samples,
 		Exhaustive: true,
-		Bounds: map[string]any{"batch_menu": "0,1,2,5,T-1,T,T+1,2T-1,2T,2T+3 (T=256 triangles / 128 lines)", "writes_per_producer": maxLen, "producers": "1 and 2: all interleavings (unbounded, happens-before state pruning); 3: <= 3 preemptions (thorough: unbounded)",
+		Bounds: map[string]any{"batch_menu": "0,1,2,5,T-1,T,T+1,2T-1,2T,2T+3 (T=256 triangles / 128 lines)", "writes_per_producer": maxLen, "producers": "1 and 2: all interleavings (unbounded, happens-before state pruning); 3: <= 3 preemptions (thorough: unbounded); thorough also 4 producers with <= 2 preemptions",
 			"sinks": "own consumer, sdf.WriteTriangles, render.ToTriangles, render.ToSTL (vos), render.ToSVG (vos)", "scenarios": len(scens)},
 		Extra: map[string]any{"counters": m.Counters},
 		Assumptions: []string{"interleavings at synchronisation operations (mutex, channel, waitgroup, go) of the rewritten files; vrewrite refuses constructs it does not model", "producers reuse one scratch slice and poison it after Write returns (a writer must copy)",
